@@ -145,6 +145,10 @@ C11_SameMolecule ==
   /\ {Core(n) : n \in FNodes(O)} = {Core(n) : n \in ToSet(T.twin.fine.nodes)}
   /\ {<<e[1], e[2], e[3]>> : e \in FEdges(O)} = {<<e[1], e[2], e[3]>> : e \in ToSet(T.twin.fine.edges)}
 
+(* every mapping entry of the observation names an atom of the template it claims to instantiate *)
+MapsExist(C) == \A n \in FNodes(O) : \A m \in Members(n) :
+                   m[2] \in DOMAIN C.lib => (m[3] + 1) \in DOMAIN C.lib[m[2]].desc
+
 Verdict ==
   IF cfg = <<>> THEN [dom |-> FALSE]
   ELSE
@@ -158,6 +162,11 @@ Verdict ==
               C11_RejectsBondedVirtual |-> (exp # "ok") => O.outcome = exp,
               dev_EZ_GlobalIndexOrder |-> ("reftoks" \in DOMAIN T /\ exp = "ok") /\ DevEZExplains(C),
               X_Accepted |-> (exp = "ok") => ok ]
+       ELSE IF ~MapsExist(C)
+       THEN \* the observation refers to template atoms that do not exist: nothing else can be evaluated (verdicts are total)
+         [ dom |-> TRUE, expected |-> exp, outcome |-> O.outcome, checked |-> TRUE, X_Accepted |-> TRUE,
+           X_MapsExist |-> FALSE, C02_Records |-> FALSE, C02_Copy |-> FALSE, C02_Cover |-> FALSE,
+           C01_Original |-> FALSE, C09_Complete |-> FALSE, C12_Keys |-> C12_Keys(C, O) ]
        ELSE
          [ dom |-> TRUE, expected |-> exp, outcome |-> O.outcome, checked |-> TRUE,
            dedicated |-> Dedicated(C), sharing |-> ~NoSharing(O), widesharing |-> ~NoWideSharing(O),
